@@ -885,3 +885,194 @@ Proof.
     rewrite EE in E. injection E as _ <-. reflexivity. }
   subst o. simpl in H. inversion H as [|? ? Hlt _]; subst. simpl in Hlt. vm_compute in Hlt. discriminate Hlt.
 Qed.
+
+(* ========================================================================================== *)
+(* reset records                                                                               *)
+(* ========================================================================================== *)
+
+(* the text of a reset record is the level some onReset callback of that reset reported: no polarity translation *)
+Definition rst_from (all : list cb) (kv : string * string) : Prop :=
+  exists l, In (CbReset (fst kv) l) all /\ snd kv = bool_text l.
+
+Definition phase_rst_ok (all : list cb) (p : phase) : Prop := Forall (rst_from all) (ph_rst p).
+
+Definition state_rst_ok (all : list cb) (s : tvst) : Prop :=
+  Forall (phase_rst_ok all) (tv_phases s) /\ phase_rst_ok all (tv_post s) /\
+  (forall n v, In (TRst n v) (tv_out s) -> rst_from all (n, v)).
+
+Lemma smap_set_Forall (P : string * string -> Prop) k v : forall m, P (k, v) -> Forall P m -> Forall P (smap_set k v m).
+Proof.
+  induction m as [|[k' v'] r IH]; intros Hn Hm; simpl; [repeat constructor; exact Hn|].
+  inversion Hm as [|? ? H1 H2]; subst.
+  destruct (String.eqb k k'); [constructor; assumption|].
+  destruct (str_ltb k k'); [constructor; assumption|]. constructor; [assumption | apply IH; assumption].
+Qed.
+
+Lemma upd_last_Forall (P : phase -> Prop) f : (forall p, P p -> P (f p)) -> P ph_empty ->
+  forall l, Forall P l -> Forall P (upd_last f l).
+Proof.
+  intros Hf He. induction l as [|a r IH]; intros H; simpl.
+  - repeat constructor. apply Hf, He.
+  - inversion H as [|? ? Ha Hr]; subst. destruct r as [|b r'].
+    + repeat constructor. apply Hf, Ha.
+    + constructor; [exact Ha | apply IH; exact Hr].
+Qed.
+
+Lemma phase_items_rst n v p : In (TRst n v) (phase_items p) -> In (n, v) (ph_rst p).
+Proof.
+  unfold phase_items. rewrite !in_app_iff. intros [H|[H|H]]; apply in_map_iff in H; destruct H as [[k w] [E Hin]];
+    try discriminate. simpl in E. injection E as -> ->. exact Hin.
+Qed.
+
+Lemma flush_phases_rst fs iv : forall ps idx w w' o n v,
+  flush_phases fs iv idx ps w = (w', o) -> In (TRst n v) o -> exists p, In p ps /\ In (n, v) (ph_rst p).
+Proof.
+  induction ps as [|p r IH]; intros idx w w' o n v H Hin; simpl in H.
+  - injection H as <- <-. contradiction.
+  - destruct (phase_is_empty p).
+    + destruct (IH _ _ _ _ _ _ H Hin) as [q [A B]]. exists q. split; [right; exact A | exact B].
+    + destruct (flush_phases fs iv (S idx) r (w + adv_ps (phase_target fs iv idx) w)) as [w2 o2] eqn:E.
+      injection H as <- <-. destruct Hin as [Hin|Hin]; [discriminate|].
+      apply in_app_iff in Hin. destruct Hin as [Hin|Hin].
+      * exists p. split; [left; reflexivity | apply phase_items_rst; exact Hin].
+      * destruct (IH _ _ _ _ _ _ E Hin) as [q [A B]]. exists q. split; [right; exact A | exact B].
+Qed.
+
+Lemma phase_rst_ok_empty all : phase_rst_ok all ph_empty.
+Proof. constructor. Qed.
+
+Lemma flush_rst_ok all fend s : state_rst_ok all s -> state_rst_ok all (flush fend s).
+Proof.
+  intros [Hp [Hq Ho]]. unfold flush.
+  destruct (flush_phases (tv_fstart s) (flush_interval (tv_fstart s) fend (length (tv_phases s))) 0 (tv_phases s) (tv_written s)) as [w o] eqn:E.
+  split; [|split]; simpl.
+  - repeat constructor.
+  - exact Hq.
+  - intros n v Hin. apply in_app_iff in Hin. destruct Hin as [Hin|Hin]; [apply Ho; exact Hin|].
+    destruct (flush_phases_rst _ _ _ _ _ _ _ _ _ E Hin) as [p [A B]].
+    rewrite Forall_forall in Hp. specialize (Hp p A). unfold phase_rst_ok in Hp. rewrite Forall_forall in Hp. apply Hp; exact B.
+Qed.
+
+Lemma step_rst_ok all s c : In c all -> state_rst_ok all s -> state_rst_ok all (tv_step s c).
+Proof.
+  intros Hc [Hp [Hq Ho]].
+  assert (Hpush : forall l, Forall (phase_rst_ok all) l -> Forall (phase_rst_ok all) (l ++ [ph_empty])).
+  { intros l Hl. apply Forall_app. split; [exact Hl | repeat constructor]. }
+  destruct c as [|p now| | |n a|n v|n b v|now]; cbn [tv_step].
+  - split; [|split]; simpl; auto.
+  - destruct (tphase_eqb p PhAfter); [|split; [|split]; simpl; auto].
+    set (s0 := {| tv_phases := tv_phases s; tv_post := tv_post s; tv_written := tv_written s;
+                  tv_fstart := tv_fstart s; tv_cur := p; tv_out := tv_out s |}).
+    destruct (flush_rst_ok all now s0) as [Hp1 [Hq1 Ho1]]; [split; [|split]; simpl; auto|].
+    split; [|split]; simpl.
+    + apply Hpush. apply upd_last_Forall; [intros _ _; exact Hq1 | apply phase_rst_ok_empty | exact Hp1].
+    + apply phase_rst_ok_empty.
+    + exact Ho1.
+  - split; [|split]; simpl; auto.
+  - split; [|split]; auto.
+  - assert (Hnew : rst_from all (n, bool_text a)) by (exists a; split; [exact Hc | reflexivity]).
+    destruct (tphase_eqb (tv_cur s) PhDuring); (split; [|split]); simpl; auto.
+    + unfold phase_rst_ok, ph_add_rst; simpl. apply smap_set_Forall; assumption.
+    + apply upd_last_Forall; [|apply phase_rst_ok_empty | exact Hp].
+      intros q Hqq. unfold phase_rst_ok, ph_add_rst; simpl. apply smap_set_Forall; assumption.
+  - destruct (tphase_eqb (tv_cur s) PhDuring); (split; [|split]); simpl; auto.
+    apply upd_last_Forall; [|apply phase_rst_ok_empty | exact Hp]. intros q Hqq. exact Hqq.
+  - destruct (check_text b v); [|split; [|split]; auto]. split; [|split]; simpl; auto.
+    apply upd_last_Forall; [|apply phase_rst_ok_empty | exact Hp]. intros q Hqq. exact Hqq.
+  - apply flush_rst_ok. split; [|split]; auto.
+Qed.
+
+Theorem tv_rst_record_is_level_proof : forall cbs n v,
+  In (TRst n v) (tv_stream cbs) -> exists l, In (CbReset n l) cbs /\ v = bool_text l.
+Proof.
+  intros cbs n v Hin.
+  assert (G : forall pre s, incl pre cbs -> state_rst_ok cbs s -> state_rst_ok cbs (tv_run_from s pre)).
+  { induction pre as [|c r IH]; intros s Hi Hs; simpl; [exact Hs|].
+    apply IH; [intros x Hx; apply Hi; right; exact Hx|].
+    apply step_rst_ok; [apply Hi; left; reflexivity | exact Hs]. }
+  destruct (G cbs tv_init (incl_refl _)) as [_ [_ Ho]].
+  - split; [constructor | split; [constructor | intros ? ? []]].
+  - exact (Ho n v Hin).
+Qed.
+
+(* a CHECK recorded after a phase boundary follows the reset changes recorded before that boundary *)
+Definition has_rst (n : string) (p : phase) : Prop := In n (map fst (ph_rst p)).
+
+Lemma has_rst_stable n : op_stable (has_rst n).
+Proof.
+  intros f p Hop H. destruct Hop; unfold has_rst in *; simpl; auto. apply smap_set_keeps; exact H.
+Qed.
+
+Lemma has_rst_items n p : has_rst n p -> exists v' a b, phase_items p = a ++ TRst n v' :: b.
+Proof.
+  unfold has_rst, phase_items. intros H. apply in_map_iff in H. destruct H as [[k v] [Hk Hin]]. simpl in Hk. subst k.
+  apply in_split in Hin. destruct Hin as [l1 [l2 ->]].
+  exists v, (map (fun kv => TCheck (fst kv) (snd kv)) (ph_chk p) ++ map (fun kv => TSet (fst kv) (snd kv)) (ph_set p)
+             ++ map (fun kv => TRst (fst kv) (snd kv)) l1),
+    (map (fun kv => TRst (fst kv) (snd kv)) l2).
+  rewrite map_app. simpl. repeat rewrite <- app_assoc. reflexivity.
+Qed.
+
+Lemma after_rst s n a : tv_cur s <> PhDuring ->
+  has_rst n (last (tv_phases (tv_step s (CbReset n a))) ph_empty) /\ frozen (tv_step s (CbReset n a)) = frozen s.
+Proof.
+  intros Hc. cbn [tv_step]. destruct (tphase_eqb (tv_cur s) PhDuring) eqn:E.
+  - destruct (tv_cur s); try discriminate. contradiction.
+  - split; [|apply frozen_on_back]. unfold on_back; cbn [tv_phases]. rewrite upd_last_last.
+    unfold has_rst, ph_add_rst; simpl. apply smap_set_has.
+Qed.
+
+Theorem tv_check_after_rst_proof : forall c1 n a c2 m b w tw c3 t,
+  check_text b w = Some tw ->
+  tv_cur (tv_run_from tv_init c1) <> PhDuring ->
+  existsb is_delim c2 = true ->
+  exists v' pre mid post,
+    nonadv (tv_stream (c1 ++ CbReset n a :: c2 ++ CbRead m b w :: c3 ++ [CbDestroy t]))
+    = pre ++ TRst n v' :: mid ++ TCheck m tw :: post.
+Proof.
+  intros c1 n a c2 m b w tw c3 t Hct Hcur Hd.
+  replace (c1 ++ CbReset n a :: c2 ++ CbRead m b w :: c3 ++ [CbDestroy t])
+    with ((c1 ++ CbReset n a :: c2 ++ CbRead m b w :: c3) ++ [CbDestroy t])
+    by (rewrite <- !app_assoc; simpl; rewrite <- !app_assoc; reflexivity).
+  rewrite stream_frozen.
+  rewrite <- app_assoc. rewrite run_app. cbn [app].
+  set (s1 := tv_run_from tv_init c1) in *.
+  change (tv_run_from s1 (CbReset n a :: (c2 ++ CbRead m b w :: c3) ++ [CbDestroy t]))
+    with (tv_run_from (tv_step s1 (CbReset n a)) ((c2 ++ CbRead m b w :: c3) ++ [CbDestroy t])).
+  destruct (after_rst s1 n a Hcur) as [Hs Hf1].
+  set (s2 := tv_step s1 (CbReset n a)) in *.
+  rewrite <- app_assoc. rewrite run_app.
+  destruct (run_carry _ (has_rst_stable n) c2 s2 Hs) as [C1 _].
+  destruct (C1 Hd) as [A [p [B [He Hp]]]].
+  set (s3 := tv_run_from s2 c2) in *.
+  cbn [app].
+  change (tv_run_from s3 (CbRead m b w :: c3 ++ [CbDestroy t]))
+    with (tv_run_from (tv_step s3 (CbRead m b w)) (c3 ++ [CbDestroy t])).
+  destruct (after_read s3 m b w tw Hct) as [Hc Hf3].
+  set (s4 := tv_step s3 (CbRead m b w)) in *.
+  destruct (run_carry _ (has_chk_stable m tw) (c3 ++ [CbDestroy t]) s4 Hc) as [C2 _].
+  destruct (C2 (existsb_delim_snoc c3 t)) as [A2 [p2 [B2 [He2 Hp2]]]].
+  rewrite He2, Hf3, He.
+  destruct (has_rst_items n p Hp) as [v' [a0 [b0 Ep]]].
+  destruct (has_chk_items m tw p2 Hp2) as [a2 [b2 Ep2]].
+  rewrite Ep, Ep2.
+  exists v', (frozen s2 ++ A ++ a0), (b0 ++ B ++ A2 ++ a2), (b2 ++ B2).
+  repeat rewrite <- app_assoc. simpl. repeat rewrite <- app_assoc. reflexivity.
+Qed.
+
+Lemma tv_rst_level_in n : forall s cur v, tv_rst_level n s cur = Some v -> cur = Some v \/ In (TRst n v) s.
+Proof.
+  induction s as [|i r IH]; intros cur v H; simpl in H; [left; exact H|].
+  destruct i as [d|k w|k w|k w]; try (destruct (IH _ _ H) as [A|A]; [left; exact A | right; right; exact A]).
+  destruct (String.eqb_spec k n) as [->|Hne].
+  - destruct (IH _ _ H) as [A|A]; [injection A as ->; right; left; reflexivity | right; right; exact A].
+  - destruct (IH _ _ H) as [A|A]; [left; exact A | right; right; exact A].
+Qed.
+
+(* the level a reset port has after the replay is a level the simulator reported for that reset signal *)
+Theorem tv_rst_replay_level_proof : forall cbs n v,
+  tv_rst_level n (tv_stream cbs) None = Some v -> exists l, In (CbReset n l) cbs /\ v = bool_text l.
+Proof.
+  intros cbs n v H. destruct (tv_rst_level_in n _ _ _ H) as [A|A]; [discriminate|].
+  apply tv_rst_record_is_level_proof; exact A.
+Qed.
